@@ -2,6 +2,7 @@ package checks
 
 import (
 	"bytes"
+	"io"
 	"encoding/json"
 	"fmt"
 	"strings"
@@ -475,6 +476,8 @@ type c14Logger struct {
 	committed int
 	// detachAfter > 0: the logger takes itself off the System (sys.Logger = nil) after that many lines
 	detachAfter, lines int
+	// failAfter > 0: from that line on Write returns (len/2, io.ErrShortWrite)
+	failAfter int
 }
 
 func (l *c14Logger) Write(p []byte) (int, error) {
@@ -495,6 +498,11 @@ func (l *c14Logger) Write(p []byte) (int, error) {
 		ev.bad = kind + ": " + wt
 	}
 	*l.events = append(*l.events, ev)
+	if l.failAfter > 0 && l.lines+1 >= l.failAfter {
+		// a sink that fails (full disk, closed pipe): it reports a short write and an error from now on
+		l.lines++
+		return len(p) / 2, io.ErrShortWrite
+	}
 	if l.lines++; l.detachAfter > 0 && l.lines == l.detachAfter {
 		l.sys.Logger = nil // the field is the caller's: it may be cleared at any time, also from inside Write
 	}
@@ -589,6 +597,9 @@ func c14RunCheck(w *c12World, rr c12Run) (sig, what string) {
 		if rr.Logger == 3 {
 			lg.detachAfter = 2
 		}
+		if rr.Logger == 4 {
+			lg.failAfter = 2
+		}
 		w.sut.Logger = lg
 	}
 	gotRes, pnS := run(w.sut, &events)
@@ -645,6 +656,9 @@ func c14RunCheck(w *c12World, rr c12Run) (sig, what string) {
 			w.skipped = true
 			return "", ""
 		}
+	}
+	if lg.failAfter > 0 && lg.lines >= lg.failAfter {
+		return "", "" // the sink failed: what was traced after that is not judged, only that the run was not disturbed
 	}
 	if lg.detachAfter > 0 && lg.lines >= lg.detachAfter {
 		return "", "" // the logger took itself off: the run went on untraced, the line count says nothing
@@ -739,7 +753,7 @@ func runC14(r *report.Run) {
 	}
 	runs := c12Scenarios(pdepth, []int{1, 2}, budgets)
 	// a logger that takes itself off the System after two lines (budgets that allow more than two instructions)
-	for _, rr := range c12Scenarios(pdepth, []int{3}, []uint64{8, 50}) {
+	for _, rr := range c12Scenarios(pdepth, []int{3, 4}, []uint64{8, 50}) {
 		runs = append(runs, rr)
 	}
 	// long runs: budgets beyond the logger's reservation clamp ($100 cycles), on programs that loop
